@@ -113,6 +113,60 @@ func cmdFunc(args []string) int {
 	defer os.RemoveAll(scratch)
 	rc := 0
 	for _, key := range keys {
+		if key == "asm" {
+			t0 := time.Now()
+			fc := asmContractFor(e)
+			if fc == nil {
+				fmt.Println("asm: no contract")
+				rc = 1
+				continue
+			}
+			obls, n, err := asmTranslate(e, fc, scratch)
+			if err != nil {
+				fmt.Println("asm: UNDECIDED:", err)
+				rc = 1
+				continue
+			}
+			if *only != "" {
+				var fl []*Obligation
+				for _, o := range obls {
+					if strings.Contains(o.Name, *only) {
+						fl = append(fl, o)
+					}
+				}
+				obls = fl
+			}
+			cfg := solveCfg{timeoutS: *timeout, firstS: 3, seed: envInt("VERIF_SEED", 0), workers: runtime.NumCPU(), scratch: scratch, models: true}
+			solveAll(obls, cfg)
+			ok, bad, cs, ca := 0, 0, 0, 0
+			for _, o := range obls {
+				if o.ExpectSat {
+					ca++
+					if o.Status == "sat" {
+						cs++
+					}
+					continue
+				}
+				if o.Status == "unsat" {
+					ok++
+				} else {
+					bad++
+				}
+				if *verbose || o.Status != "unsat" {
+					fmt.Printf("  %-8s %-7s %5.2fs %s %s\n", o.Status, o.Solver, o.TimeS, o.Name, o.Meta["pos"])
+					if o.Status != "unsat" && *dump != "" {
+						os.MkdirAll(*dump, 0o755)
+						os.WriteFile(filepath.Join(*dump, sanitize(o.Name)+".smt2"), []byte(o.Query(true)), 0o644)
+						os.WriteFile(filepath.Join(*dump, sanitize(o.Name)+".out"), []byte(o.Output), 0o644)
+					}
+				}
+			}
+			fmt.Printf("asm.decodeBlock: %d instructions, %d obligations, %d discharged, %d failed; canaries %d/%d; %.1fs\n", n, ok+bad, ok, bad, cs, ca, time.Since(t0).Seconds())
+			if bad > 0 {
+				rc = 1
+			}
+			continue
+		}
 		if e.contracts[key] == nil {
 			fmt.Printf("%s: no contract\n", key)
 			rc = 1
